@@ -1952,10 +1952,17 @@ func (w *Walker) walkField(ref int, skipFor SkipVisitors) {
 	}
 
 	if w.document.Fields[ref].HasDirectives {
-		for _, i := range w.document.Fields[ref].Directives.Refs {
+		// A visitor may remove the directive it is called for from the node; the remaining refs then move up
+		// in place. The list is re-read on every step, and the position only advances when the directive at
+		// it is still the one that was walked - otherwise the directive that moved up would be skipped.
+		for idx := 0; idx < len(w.document.Fields[ref].Directives.Refs); {
+			i := w.document.Fields[ref].Directives.Refs[idx]
 			w.walkDirective(i, skipFor)
 			if w.stop {
 				return
+			}
+			if idx < len(w.document.Fields[ref].Directives.Refs) && w.document.Fields[ref].Directives.Refs[idx] == i {
+				idx++
 			}
 		}
 	}
@@ -2150,8 +2157,13 @@ func (w *Walker) walkFragmentSpread(ref int, skipFor SkipVisitors) {
 	}
 
 	if w.document.FragmentSpreads[ref].HasDirectives {
-		for _, i := range w.document.FragmentSpreads[ref].Directives.Refs {
+		// see walkField: a visitor may remove the directive it is called for
+		for idx := 0; idx < len(w.document.FragmentSpreads[ref].Directives.Refs); {
+			i := w.document.FragmentSpreads[ref].Directives.Refs[idx]
 			w.walkDirective(i, skipFor)
+			if idx < len(w.document.FragmentSpreads[ref].Directives.Refs) && w.document.FragmentSpreads[ref].Directives.Refs[idx] == i {
+				idx++
+			}
 		}
 	}
 
@@ -2219,8 +2231,13 @@ func (w *Walker) walkInlineFragment(ref int, skipFor SkipVisitors) {
 	}
 
 	if w.document.InlineFragments[ref].HasDirectives {
-		for _, i := range w.document.InlineFragments[ref].Directives.Refs {
+		// see walkField: a visitor may remove the directive it is called for
+		for idx := 0; idx < len(w.document.InlineFragments[ref].Directives.Refs); {
+			i := w.document.InlineFragments[ref].Directives.Refs[idx]
 			w.walkDirective(i, skipFor)
+			if idx < len(w.document.InlineFragments[ref].Directives.Refs) && w.document.InlineFragments[ref].Directives.Refs[idx] == i {
+				idx++
+			}
 		}
 	}
 
@@ -2373,10 +2390,15 @@ func (w *Walker) walkObjectTypeDefinition(ref int, skipFor SkipVisitors) {
 	}
 
 	if w.document.ObjectTypeDefinitions[ref].HasDirectives {
-		for _, i := range w.document.ObjectTypeDefinitions[ref].Directives.Refs {
+		// see walkField: a visitor may remove the directive it is called for
+		for idx := 0; idx < len(w.document.ObjectTypeDefinitions[ref].Directives.Refs); {
+			i := w.document.ObjectTypeDefinitions[ref].Directives.Refs[idx]
 			w.walkDirective(i, skipFor)
 			if w.stop {
 				return
+			}
+			if idx < len(w.document.ObjectTypeDefinitions[ref].Directives.Refs) && w.document.ObjectTypeDefinitions[ref].Directives.Refs[idx] == i {
+				idx++
 			}
 		}
 	}
@@ -2544,10 +2566,15 @@ func (w *Walker) walkFieldDefinition(ref int, skipFor SkipVisitors) {
 	}
 
 	if w.document.FieldDefinitions[ref].HasDirectives {
-		for _, i := range w.document.FieldDefinitions[ref].Directives.Refs {
+		// see walkField: a visitor may remove the directive it is called for
+		for idx := 0; idx < len(w.document.FieldDefinitions[ref].Directives.Refs); {
+			i := w.document.FieldDefinitions[ref].Directives.Refs[idx]
 			w.walkDirective(i, skipFor)
 			if w.stop {
 				return
+			}
+			if idx < len(w.document.FieldDefinitions[ref].Directives.Refs) && w.document.FieldDefinitions[ref].Directives.Refs[idx] == i {
+				idx++
 			}
 		}
 	}
@@ -2688,10 +2715,15 @@ func (w *Walker) walkInterfaceTypeDefinition(ref int, skipFor SkipVisitors) {
 	}
 
 	if w.document.InterfaceTypeDefinitions[ref].HasDirectives {
-		for _, i := range w.document.InterfaceTypeDefinitions[ref].Directives.Refs {
+		// see walkField: a visitor may remove the directive it is called for
+		for idx := 0; idx < len(w.document.InterfaceTypeDefinitions[ref].Directives.Refs); {
+			i := w.document.InterfaceTypeDefinitions[ref].Directives.Refs[idx]
 			w.walkDirective(i, skipFor)
 			if w.stop {
 				return
+			}
+			if idx < len(w.document.InterfaceTypeDefinitions[ref].Directives.Refs) && w.document.InterfaceTypeDefinitions[ref].Directives.Refs[idx] == i {
+				idx++
 			}
 		}
 	}
